@@ -217,6 +217,151 @@ HOOKS4 = """    def __pre_serialize__(self):
 """
 
 
+def _recursive_alias_context_case(rng, rec, fam, mixkey, mixin, lazy, facts):
+    """(C) a context argument reaches every opted-in instance below a RECURSIVE alias (type Tree = Leaf | list[Tree] | ...), at
+    every depth, unchanged (the same object), once per hook."""
+    import msgpack
+    from mashumaro.codecs.basic import BasicEncoder
+    cfg = "    class Config(BaseConfig):\n        code_generation_options = [ADD_SERIALIZATION_CONTEXT]\n" + lazy
+    shape = rng.choice(["list[Tree]", "dict[str, Tree]", "list[Tree] | dict[str, Tree]"])
+    src = (f"@dataclass\nclass Leaf({mixin}):\n    n: int = 0\n" + cfg +
+           "    def __pre_serialize__(self, context=None):\n        LOG.append(('pre_ser', 'Leaf', id(self), id(context) if context is not None else None))\n        return self\n"
+           "    def __post_serialize__(self, d, context=None):\n        LOG.append(('post_ser', 'Leaf', id(self), id(context) if context is not None else None))\n        return d\n"
+           f"type Tree = Leaf | {shape}\n"
+           f"@dataclass\nclass Forest({mixin}):\n    t: Tree\n    ts: list[Tree] = field(default_factory=list)\n" + cfg)
+    fam.exec_src(src)
+    m = fam.module
+    leaves = []
+
+    def tree(d):
+        if d == 0 or rng.random() < 0.3:
+            leaves.append(m.Leaf(len(leaves)))
+            return leaves[-1]
+        if "list" in shape and ("dict" not in shape or rng.random() < 0.5):
+            return [tree(d - 1) for _ in range(rng.randint(1, 3))]
+        return {f"k{i}": tree(d - 1) for i in range(rng.randint(1, 2))}
+    v = m.Forest(tree(rng.randint(1, 4)), [tree(rng.randint(0, 3)) for _ in range(rng.randint(0, 2))])
+    ctx = {"marker": object()}
+    routes = [("to_dict", lambda: v.to_dict(context=ctx))]
+    if mixkey == "msgpack":
+        routes.append(("to_msgpack", lambda: v.to_msgpack(context=ctx)))
+    if mixkey == "orjson":
+        routes.append(("to_jsonb", lambda: v.to_jsonb(context=ctx)))
+    for label, fn in routes:
+        rec.evaluation()
+        LOG.clear()
+        try:
+            fn()
+        except Exception as e:
+            rec.violation(f"special:C:{label}:exception:{type(e).__name__}", {"error": f"{type(e).__name__}: {e}"[:300], "source": src, "value": common.short(v, 300)}, facts)
+            continue
+        bad = []
+        for lf in leaves:
+            for kind in ("pre_ser", "post_ser"):
+                seen = [e[3] for e in LOG if e[0] == kind and e[2] == id(lf)]
+                if seen != [id(ctx)]:
+                    bad.append((lf.n, kind, "no context" if seen == [None] else f"{len(seen)} calls"))
+        if bad:
+            rec.violation(f"special:C:{label}:context-did-not-reach-an-instance-below-a-recursive-alias",
+                          {"problems": bad[:6], "value": common.short(v, 300), "source": src}, dict(facts, kind="context"))
+        else:
+            rec.count("special_hook_counts_ok")
+            rec.count("context_below_recursive_alias_ok", len(leaves))
+            rec.nontrivial(("special-hooks", "C", mixkey, label, shape, common.short(v, 120)))
+
+
+def _falsy_instance_case(rng, rec, fam, mixkey, mixin, lazy, facts):
+    """(D) the return value of __pre_serialize__ is what gets serialized and what __post_serialize__ runs on - also when the
+    returned object is FALSY (a container-like dataclass that is empty, one that defines __bool__)."""
+    from mashumaro.codecs.basic import BasicEncoder
+    falsy = rng.choice(["__len__", "__bool__"])
+    src = (f"@dataclass\nclass Basket({mixin}):\n    items: List[int] = field(default_factory=list)\n    note: str = ''\n" +
+           ("    class Config(BaseConfig):\n" + lazy if lazy else "") +
+           ("    def __len__(self):\n        return len(self.items)\n" if falsy == "__len__" else "    def __bool__(self):\n        return bool(self.items)\n") +
+           "    def __pre_serialize__(self):\n        new = dataclasses.replace(self, note='stamped')\n        LOG.append(('pre_ser', id(self), id(new)))\n        KEEP.append(new)\n        return new\n"
+           "    def __post_serialize__(self, d):\n        LOG.append(('post_ser', id(self), None))\n        return d\n"
+           f"@dataclass\nclass Cart({mixin}):\n    b: Basket\n    bs: List[Basket] = field(default_factory=list)\n    ob: Optional[Basket] = None\n")
+    fam.module.KEEP = []
+    fam.module.dataclasses = __import__("dataclasses")
+    fam.exec_src(src)
+    m = fam.module
+
+    def basket():
+        return m.Basket([1] if rng.random() < 0.4 else [])
+    v = m.Cart(basket(), [basket() for _ in range(rng.randint(0, 3))], basket() if rng.random() < 0.5 else None)
+    routes = [("to_dict", lambda: v.to_dict()), ("codec", lambda: BasicEncoder(m.Cart).encode(v)), ("root", lambda: {"b": v.b.to_dict(), "bs": [x.to_dict() for x in v.bs],
+                                                                                                                     "ob": None if v.ob is None else v.ob.to_dict()})]
+    for label, fn in routes:
+        rec.evaluation()
+        LOG.clear()
+        del m.KEEP[:]
+        try:
+            out = fn()
+        except Exception as e:
+            rec.violation(f"special:D:{label}:exception:{type(e).__name__}", {"error": f"{type(e).__name__}: {e}"[:300], "source": src}, facts)
+            continue
+        docs = [out["b"]] + list(out["bs"]) + ([out["ob"]] if out.get("ob") is not None else [])
+        returned = {e[2] for e in LOG if e[0] == "pre_ser"}
+        post_on = [e[1] for e in LOG if e[0] == "post_ser"]
+        problems = []
+        if any(d.get("note") != "stamped" for d in docs):
+            problems.append("the object returned by __pre_serialize__ was not the one serialized")
+        if sorted(post_on) != sorted(returned):
+            problems.append("__post_serialize__ did not run on the returned objects")
+        if problems:
+            rec.violation(f"special:D:{label}:return-value-of-pre-serialize-not-used", {"problems": problems, "result": common.short(out, 300), "value": common.short(v, 300), "source": src},
+                          dict(facts, kind="return-value", falsy=falsy))
+        else:
+            rec.count("special_hook_counts_ok")
+            rec.nontrivial(("special-hooks", "D", mixkey, label, falsy, common.short(v, 100)))
+
+
+def _fieldless_case(rng, rec, fam, mixkey, mixin, lazy, facts, expect_once, count):
+    """(E) classes without constructor parameters (tag-only variants, markers, all members init=False) still run their hooks."""
+    from mashumaro.codecs.basic import BasicDecoder, BasicEncoder
+    kind = rng.choice(["marker", "variants", "init_false"])
+    forbid = "        forbid_extra_keys = True\n" if rng.random() < 0.3 else ""
+    cfg = ("    class Config(BaseConfig):\n" + lazy + forbid) if (lazy or forbid) else ""
+    if kind == "marker":
+        src = f"@dataclass\nclass Ping({mixin}):\n" + (cfg or "") + HOOKS4
+        doc = {}
+    elif kind == "init_false":
+        src = f"@dataclass\nclass Ping({mixin}):\n    seen: int = field(default=0, init=False)\n    K: ClassVar[int] = 1\n" + (cfg or "") + HOOKS4
+        doc = {}
+    else:
+        src = (f"@dataclass\nclass Msg({mixin}):\n    class Config(BaseConfig):\n        discriminator = Discriminator(field='type', include_subtypes=True)\n{lazy}" + HOOKS4 +
+               "@dataclass\nclass Ping(Msg):\n    type = 'ping'\n@dataclass\nclass Data(Msg):\n    type = 'data'\n    payload: int = 0\n")
+        doc = {"type": "ping"}
+    src += f"@dataclass\nclass Box({mixin}):\n    p: {'Msg' if kind == 'variants' else 'Ping'}\n    ps: List[{'Msg' if kind == 'variants' else 'Ping'}] = field(default_factory=list)\n"
+    fam.exec_src(src)
+    m = fam.module
+    root = m.Msg if kind == "variants" else m.Ping
+    x = m.Ping()
+    steps = [("from_dict", lambda: [root.from_dict(dict(doc))], ("pre_de", "post_de")),
+             ("direct.from_dict", lambda: [m.Ping.from_dict(dict(doc))], ("pre_de", "post_de")),
+             ("codec-decode", lambda: [BasicDecoder(root).decode(dict(doc))], ("pre_de", "post_de")),
+             ("holder", lambda: [m.Box.from_dict({"p": dict(doc)}).p], ("pre_de", "post_de")),
+             ("holder-list", lambda: m.Box.from_dict({"p": dict(doc), "ps": [dict(doc), dict(doc)]}).ps, ("pre_de", "post_de")),
+             ("to_dict", lambda: (x.to_dict(), [x])[1], ("pre_ser", "post_ser")),
+             ("codec-encode", lambda: (BasicEncoder(m.Ping).encode(x), [x])[1], ("pre_ser", "post_ser")),
+             ("holder.to_dict", lambda: (m.Box(x).to_dict(), [x])[1], ("pre_ser", "post_ser"))]
+    rng.shuffle(steps)
+    for label, fn, kinds in steps:
+        LOG.clear()
+        try:
+            objs = fn()
+        except Exception as e:
+            rec.evaluation()
+            rec.violation(f"special:E:{label}:exception:{type(e).__name__}", {"label": label, "error": f"{type(e).__name__}: {e}"[:200], "source": src}, facts)
+            continue
+        for o in objs:
+            if type(o) is not m.Ping:
+                rec.evaluation()
+                rec.violation(f"special:E:{label}:wrong-class", {"label": label, "observed": repr(o)[:100], "source": src}, facts)
+                continue
+            expect_once(label + "|" + kind, kinds, o, src)
+
+
 def special_hook_cases(rng, tier, rec):
     """(A) hooks declared on the base of a class-level discriminator: an instance obtained THROUGH the base still runs each
     hook once; (B) a subclass that adds nothing but hooks (no field, no Config) runs them through every entry point."""
@@ -224,7 +369,7 @@ def special_hook_cases(rng, tier, rec):
     from mashumaro.codecs.basic import BasicDecoder, BasicEncoder
     fam = Family("c19s", extra_ns={"LOG": LOG})
     try:
-        which = rng.choice("AB")
+        which = rng.choice("ABCDE")
         mixkey = rng.choice(["dict", "msgpack", "orjson"])
         mixin = BASES[mixkey]
         lazy = "        lazy_compilation = True\n" if rng.random() < 0.2 else ""
@@ -244,6 +389,12 @@ def special_hook_cases(rng, tier, rec):
             else:
                 rec.count("special_hook_counts_ok")
                 rec.nontrivial(("special-hooks", which, mixkey, label))
+        if which == "C":
+            return _recursive_alias_context_case(rng, rec, fam, mixkey, mixin, lazy, facts)
+        if which == "D":
+            return _falsy_instance_case(rng, rec, fam, mixkey, mixin, lazy, facts)
+        if which == "E":
+            return _fieldless_case(rng, rec, fam, mixkey, mixin, lazy, facts, expect_once, count)
         if which == "A":
             src = (f"@dataclass\nclass EB({mixin}):\n    class Config(BaseConfig):\n        discriminator = Discriminator(field='kind', include_subtypes=True)\n{lazy}" + HOOKS4 +
                    "@dataclass\nclass E1(EB):\n    kind = 'one'\n    a: int = 0\n"
